@@ -307,7 +307,8 @@ def gen_waveset_case(rng, depth):
     if rng.random() < 0.4 and c02.static_kind(e) == 'source':
         # the redshift assigned on the result (a composite, or an operand that already carries one)
         e = {'setz': {'z': q(rng.choice([F(1), F(3), F(1, 2), F(-1, 2), F(1, 4), F(7)])),
-                      'ztype': rng.choice([None, 'wavelength_only', 'conserve_flux'])}, 'e': e}
+                      'ztype': rng.choice([None, 'wavelength_only', 'conserve_flux']),
+                      'pre_waveset': rng.random() < 0.5}, 'e': e}
     O.fill_ss(e, with_ss=True)
     c = {'op': 'expr_waveset', 'expr': e}
     if rng.random() < 0.6:
